@@ -107,6 +107,15 @@ def gen_cases(ctx) -> List[Dict[str, Any]]:
               else ("well_behaved", "ignore_sigterm", "exit_at:2", "flood", "never_read", "close_stdout", "sigterm_slow:1.4")):
         for e in exits:
             cases.append({"behaviour": b, "exit": e, "moment": "in_flight", "companion": True})
+    # an idle application: the child has sent a finite backlog (progress of a request given up long ago, then one message
+    # that carries an id) which nobody reads, and then the context is left
+    for n in ((99, 100, 130) if ctx.tier == "quick" else (50, 99, 100, 101, 130, 400)):
+        for kind in ("response", "request"):
+            for e in exits + ["deadline_during_exit"]:
+                c = {"behaviour": f"backlog:{n}:{kind}", "exit": e, "moment": "before_first", "idle": 0.4}
+                if e == "deadline_during_exit":
+                    c["cancel_after"] = 1.2
+                cases.append(c)
     return cases
 
 
